@@ -2,6 +2,7 @@
 on each, `cargo check` every accepted SDK, and cache the observations under a key that includes the
 state of /repo's working tree, so C01-C10 pay for it once per tree."""
 import glob
+import re
 import hashlib
 import json
 import os
@@ -108,6 +109,7 @@ def get_stage(R, keep_workspace=False):
         with open(cache) as f:
             st = json.load(f)
         R.log("e2e stage: cached (%s), %d programs" % (key, len(st["obs"])))
+        os.utime(cache, None)
         return st["obs"], st["info"]
     with pxvlib.BuildLock("e2e-stage"):
         if os.path.exists(cache):
@@ -119,15 +121,22 @@ def get_stage(R, keep_workspace=False):
         ok, out = e2e.build_pavexc(R)
         if not ok:
             raise RuntimeError("pavexc does not build with hooks on: " + out[-1500:])
-        # drop stale stages / workspaces of other tree states
-        # (only if they have not been touched for a while: another check may be using them right now)
+        # drop the stages / workspaces of other tree states (each is several GB), unless one of their entries was
+        # touched recently: another check may be using it right now (a cache hit touches the stage file)
+        groups = {}
         for p in glob.glob(os.path.join(SCRATCH, "stage-*.json")) + glob.glob(os.path.join(SCRATCH, "runtime-*.json")) + \
                 glob.glob(os.path.join(SCRATCH, "ws-*")):
+            m = re.search(r"([0-9a-f]{12}_[0-9a-f]{12}-[a-z]+-\d+-[0-9a-f]{10})", os.path.basename(p))
             try:
-                stale = time.time() - os.stat(p).st_mtime > 2 * 3600
+                groups.setdefault(m.group(1) if m else p, []).append((p, os.stat(p).st_mtime))
             except OSError:
                 continue
-            if key not in p and stale:
+        free_gb = shutil.disk_usage(SCRATCH).free / 2**30
+        limit = 40 * 60 if free_gb > 40 else 10 * 60
+        for k, entries in groups.items():
+            if k == key or time.time() - max(t for _, t in entries) < limit:
+                continue
+            for p, _ in entries:
                 shutil.rmtree(p, ignore_errors=True) if os.path.isdir(p) else os.unlink(p)
         progs = build_programs(R)
         obs = {}
